@@ -320,3 +320,126 @@ pub proof fn lemma_fv_delegate(w: World, acct: Address, d: Address)
     lemma_fs_views(w, w2);
     assert forall|a: Address| #[trigger] v_units(w2, a) as int == bal(w2, a) by { assert(v_units(w2, a) == v_units(w, a)); assert(bal(w2, a) == bal(w, a)); }
 }
+
+// ---- histories of a votes-enabled fungible token ----
+pub enum JOp {
+    /// mint / transfer / transfer_from / burn / burn_from through FungibleVotes::*, approve through Base
+    Tok(FOp),
+    Delegate { acct: Address, dele: Address },
+    Tick { seq: u32, ts: u64 },
+}
+pub open spec fn jop_guard(w: World, op: JOp) -> bool {
+    match op {
+        JOp::Tok(f) => fv_guard(w, f) && w.auths =~= Set::empty(),
+        JOp::Delegate { acct, dele } => delegate_guard(w, acct, dele),
+        JOp::Tick { seq, ts } => seq >= w.ledger_seq,
+    }
+}
+pub open spec fn jop_post(w: World, op: JOp) -> World {
+    match op {
+        JOp::Tok(f) => World { auths: Set::empty(), ..fv_post(w, f) },
+        JOp::Delegate { acct, dele } => World { auths: Set::empty(), ..delegate_post(w, acct, dele) },
+        JOp::Tick { seq, ts } => World { ledger_seq: seq, timestamp: ts, auths: Set::empty(), auth_args: Set::empty(), ..w },
+    }
+}
+pub open spec fn j_run(w0: World, steps: Seq<JOp>) -> World
+    decreases steps.len()
+{
+    if steps.len() == 0 { World { auths: Set::empty(), ..w0 } } else { jop_post(j_run(w0, steps.drop_last()), steps.last()) }
+}
+pub open spec fn j_valid(w0: World, steps: Seq<JOp>) -> bool
+    decreases steps.len()
+{
+    steps.len() == 0 || (j_valid(w0, steps.drop_last()) && jop_guard(j_run(w0, steps.drop_last()), steps.last()))
+}
+pub open spec fn j_genesis(w0: World) -> bool { genesis(w0) && v_genesis(w0) }
+pub open spec fn j_hist_val(w0: World, steps: Seq<JOp>, t: CheckpointType, q: u32) -> u128
+    decreases steps.len()
+{
+    if j_run(w0, steps).ledger_seq <= q { cp_latest(j_run(w0, steps), t) }
+    else if steps.len() == 0 { 0 }
+    else { j_hist_val(w0, steps.drop_last(), t, q) }
+}
+
+pub proof fn lemma_inv_fv_frame(w: World, w2: World)
+    requires inv_fv(w), w2.persistent == w.persistent, w2.instance == w.instance, w2.events == w.events,
+        w2.ledger_seq >= w.ledger_seq, w2.ledger_ok(),
+    ensures inv_fv(w2), forall|t: CheckpointType, q: u32| #[trigger] past_value(w2, t, q) == past_value(w, t, q),
+{
+    lemma_inv_frame(w, w2);
+    lemma_inv_v_frame(w, w2);
+    assert forall|a: Address| #[trigger] v_units(w2, a) as int == bal(w2, a) by { assert(v_units(w, a) as int == bal(w, a)); assert(bal(w2, a) == bal(w, a)); }
+}
+pub proof fn lemma_jstep(w: World, op: JOp)
+    requires inv_fv(w), jop_guard(w, op),
+    ensures inv_fv(jop_post(w, op)), jop_post(w, op).ledger_seq >= w.ledger_seq,
+        forall|t: CheckpointType, q: u32| q < w.ledger_seq ==> #[trigger] past_value(jop_post(w, op), t, q) == past_value(w, t, q),
+{
+    let w2 = jop_post(w, op);
+    match op {
+        JOp::Tok(f) => {
+            let wm = fv_post(w, f);
+            lemma_fv_op(w, f);
+            lemma_inv_fv_frame(wm, w2);
+            assert forall|t: CheckpointType, q: u32| q < w.ledger_seq implies #[trigger] past_value(w2, t, q) == past_value(w, t, q) by {
+                assert(past_value(wm, t, q) == past_value(w, t, q));
+            }
+        }
+        JOp::Delegate { acct, dele } => {
+            let wm = delegate_post(w, acct, dele);
+            lemma_fv_delegate(w, acct, dele);
+            lemma_delegate_inv(w, acct, dele);
+            lemma_fs_delegate(w, acct, dele);
+            lemma_inv_fv_frame(wm, w2);
+            assert forall|t: CheckpointType, q: u32| q < w.ledger_seq implies #[trigger] past_value(w2, t, q) == past_value(w, t, q) by {
+                assert(past_value(wm, t, q) == past_value(w, t, q));
+            }
+        }
+        JOp::Tick { seq, ts } => { lemma_inv_fv_frame(w, w2); }
+    }
+}
+pub proof fn lemma_j_history(w0: World, steps: Seq<JOp>)
+    requires j_genesis(w0), w0.ledger_ok(), j_valid(w0, steps),
+    ensures
+        //@@ C13:history.fv_units_equal_balance_and_votes_inv
+        inv_fv(j_run(w0, steps)),
+        //@@ C13:history.fv_past_lookup_is_value_at_end_of_ledger
+        forall|t: CheckpointType, q: u32| #[trigger] past_value(j_run(w0, steps), t, q) == j_hist_val(w0, steps, t, q),
+    decreases steps.len()
+{
+    let w = j_run(w0, steps);
+    if steps.len() == 0 {
+        lemma_genesis(w0);
+        lemma_v_genesis(w0);
+        assert(w == run(w0, Seq::empty()));
+        assert(w == v_run(w0, Seq::empty()));
+        assert forall|a: Address| #[trigger] v_units(w, a) as int == bal(w, a) by {
+            lemma_bal_key_facts(a);
+            assert(pget(w0, VotesStorageKey::VotingUnits(a)).is_none());
+        }
+        assert forall|t: CheckpointType, q: u32| #[trigger] past_value(w, t, q) == j_hist_val(w0, steps, t, q) by {
+            assert(past_value(w, t, q) == 0);
+            assert(cp_latest(w, t) == 0);
+        }
+    } else {
+        let pre = steps.drop_last();
+        let wp = j_run(w0, pre);
+        lemma_j_history(w0, pre);
+        lemma_jstep(wp, steps.last());
+        assert forall|t: CheckpointType, q: u32| #[trigger] past_value(w, t, q) == j_hist_val(w0, steps, t, q) by {
+            if w.ledger_seq <= q {
+                assert(seq_ok(w, t));
+                lemma_past_is_latest(w, t, q);
+            } else {
+                assert(j_hist_val(w0, steps, t, q) == j_hist_val(w0, pre, t, q));
+                assert(past_value(wp, t, q) == j_hist_val(w0, pre, t, q));
+                if q < wp.ledger_seq {
+                    assert(past_value(w, t, q) == past_value(wp, t, q));
+                } else {
+                    assert(steps.last() is Tick);
+                    lemma_inv_fv_frame(wp, w);
+                }
+            }
+        }
+    }
+}
